@@ -25,7 +25,6 @@ import (
 	"math"
 	"sort"
 	"strings"
-	"sync"
 	"time"
 
 	"github.com/cockroachdb/errors"
@@ -982,8 +981,6 @@ type replicateChannelHandler struct {
 	addCollectionCnt  *int
 
 	sourceSeekPosition *msgstream.MsgPosition
-	// the source collections which have a pack that can't be handled, the key is the source collection id
-	failedCollections sync.Map
 
 	downstream    string
 	sourceKey     bool // whether the pchannel of source milvus is key
@@ -1020,6 +1017,10 @@ func (r *replicateChannelHandler) AddCollection(taskID string, sourceInfo *model
 	r.collectionSeekPositions[collectionID] = sourceInfo.SeekPosition
 	go func() {
 		log.Info("start to handle the msg pack", zap.String("channel_name", sourceInfo.VChannel))
+		// when a pack of the stream can't be handled, the error has been reported and the following packs should not be
+		// replicated, otherwise the failed pack is skipped. The mark belongs to this reader of the stream, the stream is
+		// read again from the checkpoint by a new reader after the task is resumed.
+		streamFailed := false
 		for {
 			select {
 			case <-r.replicateCtx.Done():
@@ -1030,8 +1031,10 @@ func (r *replicateChannelHandler) AddCollection(taskID string, sourceInfo *model
 					log.Warn("replicate channel closed", zap.String("channel_name", sourceInfo.VChannel))
 					return
 				}
-
-				r.innerHandleReplicateMsg(false, api.GetReplicateMsg(sourceInfo.PChannel, targetInfo.CollectionName, collectionID, msgPack, taskID))
+				if streamFailed {
+					continue
+				}
+				streamFailed = !r.innerHandleReplicateMsg(false, api.GetReplicateMsg(sourceInfo.PChannel, targetInfo.CollectionName, collectionID, msgPack, taskID))
 			}
 		}
 	}()
@@ -1104,7 +1107,6 @@ func (r *replicateChannelHandler) RemoveCollection(collectionID int64) {
 	}
 	delete(r.collectionRecords, collectionID)
 	delete(r.collectionSeekPositions, collectionID)
-	r.failedCollections.Delete(collectionID)
 	if collectionRecord != nil {
 		// the collection name is not unique, the collections in the different databases can have the same name
 		if nameInfo := r.collectionNames[collectionRecord.CollectionName]; nameInfo != nil && nameInfo.CollectionID == collectionID {
@@ -1320,26 +1322,18 @@ func (r *replicateChannelHandler) getTSManagerChannelKey(channelName string) str
 	return FormatChanKey(r.replicateID, channelName)
 }
 
-func (r *replicateChannelHandler) innerHandleReplicateMsg(forward bool, msg *api.ReplicateMsg) {
+// innerHandleReplicateMsg returns false if the pack can't be handled, the error has been reported in this case
+func (r *replicateChannelHandler) innerHandleReplicateMsg(forward bool, msg *api.ReplicateMsg) bool {
 	msgPack := msg.MsgPack
 	sourceEndTs := msg.SourceEndTs
 	if sourceEndTs == 0 && msgPack != nil {
 		sourceEndTs = msgPack.EndTs
 	}
 	verifYield("enter", r.targetPChannel, msg, nil)
-	if _, failed := r.failedCollections.Load(msg.CollectionID); failed && !forward {
-		// a pack of the collection can't be handled and the error has been reported, the following packs should not be
-		// replicated, otherwise the failed pack is skipped. The stream is read again from the checkpoint after the task is resumed.
-		verifYield("dropped", r.targetPChannel, msg, nil)
-		return
-	}
 	p := r.handlePack(forward, msgPack, msg.TaskID, msg.PChannelName)
-	if p == nil && !forward {
-		r.failedCollections.Store(msg.CollectionID, struct{}{})
-	}
 	if p == nil || p == api.EmptyMsgPack {
 		verifYield("dropped", r.targetPChannel, msg, nil)
-		return
+		return p != nil
 	}
 	p.CollectionID = msg.CollectionID
 	p.CollectionName = msg.CollectionName
@@ -1351,6 +1345,7 @@ func (r *replicateChannelHandler) innerHandleReplicateMsg(forward bool, msg *api
 	GetTSManager().UnsafeSendTargetMsg(r.getTSManagerChannelKey(r.targetPChannel), p)
 	GetTSManager().UnLockTargetChannel(r.getTSManagerChannelKey(r.targetPChannel))
 	verifYield("enqueued", r.targetPChannel, msg, p)
+	return true
 }
 
 func (r *replicateChannelHandler) collectionSourceSeekPosition(
@@ -1387,11 +1382,13 @@ func (r *replicateChannelHandler) startReadChannel() {
 				GetTSManager().ClearTSInfo(r.replicateID, r.targetPChannel)
 				return
 			case replicateMsg := <-r.forwardPackChan:
-				r.innerHandleReplicateMsg(true, replicateMsg)
-				GreedyConsumeChan(r.generatePackChan, true, r.innerHandleReplicateMsg)
+				handleFunc := func(forward bool, msg *api.ReplicateMsg) { _ = r.innerHandleReplicateMsg(forward, msg) }
+				handleFunc(true, replicateMsg)
+				GreedyConsumeChan(r.generatePackChan, true, handleFunc)
 			case replicateMsg := <-r.generatePackChan:
-				r.innerHandleReplicateMsg(false, replicateMsg)
-				GreedyConsumeChan(r.generatePackChan, false, r.innerHandleReplicateMsg)
+				handleFunc := func(forward bool, msg *api.ReplicateMsg) { _ = r.innerHandleReplicateMsg(forward, msg) }
+				handleFunc(false, replicateMsg)
+				GreedyConsumeChan(r.generatePackChan, false, handleFunc)
 			}
 		}
 	}()
